@@ -36,7 +36,16 @@ func HostileValues(cur uint64, width int, remaining int) []uint64 {
 		1<<32 - 2, 1<<32 - 12, 1<<32 - 128, 1<<32 - 132, 0x80000000 + 12, 0xFFFFFF00,
 		cur + 1, cur - 1, cur + 12, cur - 12, cur * 2, cur + 4096, uint64(remaining), uint64(remaining) + 1, uint64(remaining) - 1,
 		max, max - 1, max / 2, max/2 + 1, (1 << 32) - cur, (1 << 32) - cur + 1}
-	c = append(c, WrapValues(remaining)...)
+	if width == 4 {
+		if Full {
+			c = append(c, WrapValues(remaining)...)
+		} else {
+			for _, m := range []uint64{2, 12} {
+				base := (uint64(1)<<32 + m - 1) / m
+				c = append(c, base, base+1, base+uint64(remaining)/m)
+			}
+		}
+	}
 	seen := map[uint64]bool{}
 	var out []uint64
 	for _, v := range c {
@@ -48,6 +57,9 @@ func HostileValues(cur uint64, width int, remaining int) []uint64 {
 	}
 	return out
 }
+
+// Full selects the complete wrap-value set in HostileValues (thorough tier); the quick tier uses multipliers 2 and 12.
+var Full bool
 
 // WrapValues returns counts whose product with a small element size (2, 4, 8, 12, 16) wraps 2^32 to a value at
 // most a little above remaining: a bound check done on the wrapped product passes while the count itself is huge.
